@@ -15,7 +15,7 @@ SPEC = os.path.join(VERIF, "specs", "BodyPaths")
 PROPERTY_INVS = ("Fidelity", "ReservedRejected")
 # number formats beyond IEEE double range cannot be indexed by the Rosmar view engine (JS), so the document never shows
 # up in view-backed listings; that is the store standing in for Couchbase Server, not the gateway (NOTES.md)
-ENV_UNOBSERVABLE = {("Changes", "float_overflow")}
+ENV_UNOBSERVABLE = {(rp, "float_overflow") for rp in ("Changes", "BlipPull", "PeerPush", "PeerPull")}
 
 
 def is_canonical(steps):
@@ -62,12 +62,9 @@ def run(ctx):
     env = {"VERIF_BEH": bf, "VERIF_TRACE_OUT": tr, "VERIF_C19_NGEN": 30 if ctx.quick() else 120}
     rc, out = go_test(ctx, "rest", "^TestVerif_C19_BodyPaths$", ["harness/rest/c19_bodypaths_test.go"], env=env,
                       timeout=1500 if ctx.quick() else 3000)
-    for ln in out.splitlines():
-        if ln.startswith("VERIF-C19"):
-            log("  " + ln)
-    if rc != 0 or not os.path.exists(tr) or not os.path.exists(tr + ".meta"):
+    if rc != 0 or not os.path.exists(tr) or not os.path.exists(tr + ".meta") or not os.path.exists(tr + ".detail"):
         raise Inconclusive("C19 harness failed:\n" + harness_failure(out))
-    rows = read_ndjson(tr)
+    rows = read_ndjson(tr + ".detail")      # same lines as the trace TLC reads, plus diagnostic fields
     meta = json.load(open(tr + ".meta"))
     reads = [x for r_ in rows if r_["a"] == "Reads" for x in r_["items"]]
     resv = [x for x in rows if x["a"] == "WriteReserved"]
@@ -128,19 +125,25 @@ def run(ctx):
     if bad_unobs:
         raise Inconclusive("read cells could not be observed: %s" % bad_unobs[:5])
 
-    # ---- pass C: conformance to the model (real rev tree = model tree, cells inside the matrix, statuses as modelled)
+    # ---- pass C: conformance to the model (real rev tree = model tree, exactly the model's cells exercised, statuses as
+    # modelled); instances with a property violation are necessarily outside the model and are not counted again
     ninst = meta["instances"]
-    if viols:
-        ctx.notes.append("pass C skipped for %d instance(s) with property violations" % len(bad_instances))
-        ctx.cov["traces_validated_against_impl"] += ninst - len(bad_instances)
-    else:
-        cviol, _, chwm = validate_all(ctx, "Trace_BodyPaths_C.cfg", tr, "C")
-        stuck = {instance_of(rows, line).get("inst") for _, line in cviol}
-        if cviol or chwm < len(rows):
-            ctx.cov["nonconformance"] += max(1, len(stuck))
-            inv, line = cviol[0] if cviol else ("unconsumed", None)
-            ctx.notes.append("pass C rejected %d instance(s); first: %s at line %s: %s" % (len(stuck), inv, line, str(rows[line - 1])[:500] if line else None))
-        ctx.cov["traces_validated_against_impl"] += ninst - len(stuck)
+    cviol, _, chwm = validate_all(ctx, "Trace_BodyPaths_C.cfg", tr, "C")
+    stuck = {}
+    for inv, line in cviol:
+        stuck.setdefault(instance_of(rows, line).get("inst"), (inv, line))
+    nonconf = {i: v for i, v in stuck.items() if i not in bad_instances}
+    if nonconf:
+        ctx.cov["nonconformance"] += len(nonconf)
+        inv, line = sorted(nonconf.values(), key=lambda v: v[1] or 0)[0]
+        ctx.notes.append("pass C rejected %d instance(s); first: %s at line %s: %s" % (len(nonconf), inv, line, str(rows[line - 1])[:500] if line else None))
+    elif not cviol and chwm < len(rows):
+        ctx.cov["nonconformance"] += 1
+        ctx.notes.append("pass C consumed %s of %s lines" % (chwm, len(rows)))
+    ctx.cov["traces_validated_against_impl"] += ninst - len(set(stuck) | bad_instances)
+    ctx.cov["c19"]["harness_timing"] = meta.get("timing")
+    if meta.get("replication"):
+        ctx.cov["c19"]["replication"] = meta["replication"]
     ctx.cov["rule"] = ("one evaluation = one (behaviour, token binding, read cell) or one reserved-property write on the real gateway; "
                        "non-trivial = distinct (write path, kind, read path, cache, token) whose read returned a body (status 200) that TLC compared with the written token")
     ctx.assumptions += [
